@@ -13,7 +13,7 @@ from concurrent.futures import ThreadPoolExecutor
 
 HERE = os.path.dirname(os.path.dirname(os.path.abspath(__file__)))
 SEEDED = os.path.join(HERE, "seeded")
-EXTRA = {"C02-13": ["C01"], "C07-14": ["C16"], "C10-1": ["C06"], "C02-10": ["C01"], "C02-11": ["C01"], "C17-12": ["C08"], "C09-5": ["C01", "C08"], "C09-8": ["C08", "C01"], "C10-4": ["C06"], "C14-4": ["C12"], "C09-2": ["C14"], "C02-2": ["C03"], "C04-2": ["C09", "C15"], "C15-1": ["C02"], "C04-1": ["C03"], "C12-1": [], "C08-2": ["C01"]}
+EXTRA = {"C10-16": ["C06"], "C16-16": ["C09"], "C02-13": ["C01"], "C07-14": ["C16"], "C10-1": ["C06"], "C02-10": ["C01"], "C02-11": ["C01"], "C17-12": ["C08"], "C09-5": ["C01", "C08"], "C09-8": ["C08", "C01"], "C10-4": ["C06"], "C14-4": ["C12"], "C09-2": ["C14"], "C02-2": ["C03"], "C04-2": ["C09", "C15"], "C15-1": ["C02"], "C04-1": ["C03"], "C12-1": [], "C08-2": ["C01"]}
 
 
 def run(sid, check):
